@@ -400,9 +400,12 @@ theorem post_safe {env : Env} {top : Nat} {s s' : State} {pc' : Nat} (hinv : Inv
   obtain ⟨hk, hp⟩ := h
   exact ⟨⟨hp ▸ hpc, hinv.of_keeps hk⟩, hk.2.2.2⟩
 
+theorem good_err {P : State → Prop} {e : ErrKind} {s : State} : Good P (.err e s) := trivial
+
 /-! ### one instruction -/
 
-set_option maxHeartbeats 4000000 in
+attribute [local irreducible] Good rd wr load store xadd pktAbs branch callHelper callLocal exitInsn in
+set_option maxHeartbeats 1000000 in
 set_option maxRecDepth 4000 in
 theorem exec_good (env : Env) (top : Nat) (s : State) (i : Nat) (x : Insn)
     (hF : InsnFacts env.prog i x) (hpc : s.pc = i + 1) (hinv : Inv env top s)
@@ -411,6 +414,14 @@ theorem exec_good (env : Env) (top : Nat) (s : State) (i : Nat) (x : Insn)
   have hsrc := hF.src
   have hdst := hF.dst
   have hd10 : x.dst.toNat ≤ 10 := by omega
+  have hd9 : (x.opc.toNat = 0x72 ∨ x.opc.toNat = 0x6a ∨ x.opc.toNat = 0x62 ∨ x.opc.toNat = 0x7a ∨
+      x.opc.toNat = 0x73 ∨ x.opc.toNat = 0x6b ∨ x.opc.toNat = 0x63 ∨ x.opc.toNat = 0x7b ∨ x.opc.toNat = 0xc3 ∨
+      x.opc.toNat = 0xdb) = False → x.dst.toNat ≤ 9 := by
+    intro h
+    rcases hdst with h9 | ⟨_, hs⟩
+    · exact h9
+    · exact (cast h hs).elim
+  clear hdst
   have hft : x.opc.toNat ≠ 0x95 → x.opc.toNat ≠ 0x05 → x.opc.toNat ≠ 0x18 →
       ∀ s', Post s s.pc s' → Safe env top s' ∧ s'.mem.mem.base = s.mem.mem.base :=
     fun a b c _ h => post_safe hinv (hpc ▸ hF.next a b c) h
@@ -422,40 +433,53 @@ theorem exec_good (env : Env) (top : Nat) (s : State) (i : Nat) (x : Insn)
     rw [this]
     exact ⟨h0, ⟨h1, hinv.of_keeps ⟨rfl, rfl, rfl, rfl⟩⟩, rfl⟩
   unfold exec
-  simp only
+  dsimp only
   split
-  any_goals (exact good_exitInsn hinv htop)
-  any_goals (exact (trivial : True))
-  any_goals
-      (refine Good.mono (hft (by omega) (by omega) (by omega)) ?_
+  all_goals first
+    | exact good_exitInsn hinv htop
+    | exact good_err
+    | -- instructions that fall through to the next slot
+      (rename_i heq
+       refine Good.mono (hft (by rw [heq]; decide) (by rw [heq]; decide) (by rw [heq]; decide)) ?_
        repeat' (first
         | exact good_next
         | exact good_store
         | exact good_xadd
-        | exact good_callHelper
-        | exact good_load (by omega)
-        | exact good_wr (Keeps.refl _) rfl (by omega)
-        | refine good_rd (by omega) (fun _ => ?_)
+        | exact good_load (by decide)
+        | exact good_load (hd9 (by rw [heq]; decide))
+        | exact good_wr (Keeps.refl _) rfl (hd9 (by rw [heq]; decide))
+        | refine good_rd hsrc (fun _ => ?_)
+        | refine good_rd hd10 (fun _ => ?_)
         | refine good_pktAbs hmem (fun _ => ?_)
-        | refine good_endian (hF.endian (by omega)) ?_ ?_ ?_
+        | refine good_endian (hF.endian (Or.inl heq)) ?_ ?_ ?_
+        | refine good_endian (hF.endian (Or.inr heq)) ?_ ?_ ?_
         | split)
        done)
-  any_goals
+    | -- jumps
       (rename_i heq
        repeat' (first
-        | refine good_rd (by omega) (fun _ => ?_)
+        | refine good_rd hsrc (fun _ => ?_)
+        | refine good_rd hd10 (fun _ => ?_)
         | refine good_branch ?_ (hjmp (by rw [heq]; rfl)))
        first
         | exact fun h => Bool.noConfusion h
-        | exact fun _ => hft (by omega) (by omega) (by omega) s ⟨Keeps.refl s, rfl⟩)
-  any_goals
-      (split
-       · exact Good.mono (hft (by omega) (by omega) (by omega)) good_callHelper
+        | exact fun _ => hft (by rw [heq]; decide) (by rw [heq]; decide) (by rw [heq]; decide) s ⟨Keeps.refl s, rfl⟩)
+    | -- call
+      (rename_i heq
+       have hn := hF.next (by rw [heq]; decide) (by rw [heq]; decide) (by rw [heq]; decide)
+       split
+       · exact Good.mono (fun _ => post_safe hinv (hpc ▸ hn)) good_callHelper
        · split
-         · exact good_callLocal hinv htop hpc (hF.next (by omega) (by omega) (by omega)) (hF.call (by omega) (by assumption))
-         · trivial)
-  any_goals
-    exact Good.mono (fun _ => post_safe hinv (hpc ▸ (hF.lddw (by omega)).2)) (good_lddw hpc (hF.lddw (by omega)).1 (by omega))
-  all_goals sorry
+         · exact good_callLocal hinv htop hpc hn (hF.call heq (by assumption))
+         · exact good_err)
+    | -- lddw
+      (rename_i heq
+       exact Good.mono (fun _ => post_safe hinv (hpc ▸ (hF.lddw heq).2))
+         (good_lddw hpc (hF.lddw heq).1 (hd9 (by rw [heq]; decide))))
+    | -- no other opcode passes the verifier
+      (refine absurd ?_ hF.known
+       clear hjmp hft hF hd9 hd10 hsrc hinv hmem hpc htop
+       unfold arm
+       split <;> first | rfl | (rename_i h; exact absurd h (by assumption)))
 
 end Rbpf
